@@ -2,7 +2,7 @@ SPECIFICATION TSpec
 CONSTANTS
   Minerals = {"a", "b", "c", "d"}
   Files = {"f1", "f2"}
-  Postfixes = {"1", "10", "q", "p", "r", "ol_1", "en_1", "1_ol", "meta", "fractions_1", "a b", ""}
+  Postfixes = {"1", "10", "q", "p", "r", "ol_1", "en_1", "1_ol", "meta", "fractions_1", "a b", "", "1.5"}
   Configs = {}
   Seeds = {}
   Textures = {}
